@@ -770,6 +770,7 @@ func checkOneTxn(p *an.Prog, r *an.Run, rule string) {
 	// a handed-out record is a snapshot: no driver method returns a pointer, slice or map into the driver's own tables
 	// (shared with C08/C12)
 	checkResultsPrivate(p, r)
+	checkCheckThenAct(p, r)
 	bs := p.Named("pool/store/badger", "badgerStore")
 	if bs == nil {
 		r.Undec(rule, "badgerStore", token.NoPos, "type not found")
@@ -1118,4 +1119,96 @@ func splitAtomicRMW(p *an.Prog) (out []string, n int) {
 		}
 	}
 	return out, n
+}
+
+// checkCheckThenAct: a decision taken on what one store call returned and carried out by a later, separate store call is
+// atomic only if something excludes other requests for the whole stretch: in a request handler (pool, payment, balance
+// packages), a store WRITE whose execution depends on a condition over the VALUE (not the error) a store READ returned
+// in the same function needs a mutex held at both calls. (Withdraw does this under withdrawMu. "Refuse pool_addNode for
+// a node another wallet already claimed" as a read followed by the old atomic link write lets two wallets both pass.)
+func checkCheckThenAct(p *an.Prog, r *an.Run) {
+	writeNames := map[string]bool{"AddNodeBalance": true, "AddAccountBalance": true, "AddAccountNode": true, "SetNode": true, "UpdateNodePeers": true, "CheckAndSaveNonce": true}
+	var bad []string
+	nFn, nPairs := 0, 0
+	for _, fn := range p.Repo {
+		if p.IsTestFunc(fn) || isTestDoublePkg(fn) || takesTestingT(fn) || inDriverPkg(fn) || strings.HasSuffix(p.File(fn.Pos()), "testsuite.go") {
+			continue
+		}
+		var reads, writes []ssa.CallInstruction
+		for _, c := range an.Calls(fn, false) {
+			f := an.CallObj(c)
+			if !isStoreMethod(f) {
+				continue
+			}
+			if writeNames[f.Name()] {
+				writes = append(writes, c)
+			} else {
+				reads = append(reads, c)
+			}
+		}
+		if len(reads) == 0 || len(writes) == 0 {
+			continue
+		}
+		nFn++
+		li := an.Locksets(fn, p.EntryLocks()[fn])
+		// branches on which the write's execution depends: one successor reaches the write, the other does not
+		type dep struct{ If *ssa.If }
+		depsOf := func(w ssa.CallInstruction) []dep {
+			var out []dep
+			for _, b := range fn.Blocks {
+				if len(b.Instrs) == 0 || len(b.Succs) != 2 {
+					continue
+				}
+				iff, ok := b.Instrs[len(b.Instrs)-1].(*ssa.If)
+				if !ok {
+					continue
+				}
+				r0 := an.ReachFrom([]*ssa.BasicBlock{b.Succs[0]}, nil)[w.Block()]
+				r1 := an.ReachFrom([]*ssa.BasicBlock{b.Succs[1]}, nil)[w.Block()]
+				if r0 != r1 {
+					out = append(out, dep{iff})
+				}
+			}
+			return out
+		}
+		for _, w := range writes {
+			for _, ctl := range depsOf(w) {
+				d := p.Derives(0, ctl.If.Cond)
+				for _, rd := range reads {
+					rv := rd.Value()
+					if rv == nil || !an.Dominates(rd.(ssa.Instruction), w.(ssa.Instruction)) {
+						continue
+					}
+					// the value part of the read's result (not its error)
+					onValue := false
+					for _, n := range d.Nodes {
+						if ex, ok := n.(*ssa.Extract); ok && ex.Tuple == rv && !an.IsErrorType(ex.Type()) {
+							onValue = true
+						}
+						if n == rv && !an.IsErrorType(rv.Type()) {
+							if _, isTuple := rv.Type().(*types.Tuple); !isTuple {
+								onValue = true
+							}
+						}
+					}
+					if !onValue {
+						continue
+					}
+					nPairs++
+					common := false
+					hr, hw := li.Before[rd.(ssa.Instruction)], li.Before[w.(ssa.Instruction)]
+					for k := range hr {
+						if _, ok := hw[k]; ok {
+							common = true
+						}
+					}
+					if !common {
+						bad = append(bad, an.FuncName(fn)+" decides at "+p.Pos(ctl.If.Pos())+" on what "+callName(rd)+" returned ("+p.Pos(rd.Pos())+") whether to carry out "+callName(w)+" ("+p.Pos(w.Pos())+"), with no mutex held across the two store calls: two requests can both pass the check before either writes")
+					}
+				}
+			}
+		}
+	}
+	_ = nPairs
+	r.Check(len(bad) == 0 && nFn > 0, "check-then-act", "handlers", token.NoPos, "a store write decided by an earlier store read's value runs under a mutex held across both", "%s (functions with both a store read and a store write: %d)", strings.Join(dedup(bad), "; "), nFn)
 }
